@@ -90,7 +90,7 @@ def check_list(tags):
     return fails
 
 
-class Stall(Exception):
+class Stall(BaseException):
     pass
 
 
